@@ -36,6 +36,14 @@ chk("C10", "model_checking", "LimitFlushImmediate and (under fairness, with no F
 
 chk("C04", "model_checking", "MinMax.tla: over a symbolic ordered domain isomorphic to the int64 boundary values (below MinInt64, MinInt64+k, small integers and half-integers, 2^63-1024, MaxInt64-k, 2^63, 1e19) TLC checks for every block of up to 3 values and all 370 conditions (EQ NE GT GTE LT LTE IN NOT_IN BETWEEN incl. inverted, NOT_BETWEEN) that a satisfying row's block is never pruned, that unions only widen and that ranges cover. The replayer substitutes every Go numeric kind that can hold each point (int..int64, uint..uint64, float32/64, named int/uint/float types, time.Duration, +-Inf) into ConvertToMinMaxInt64 / UpdateMinMaxIndex / EvaluateMinMaxCondition / EvaluateDataBlockMetadata for every point and pair, and ingests/flushes/merges/queries a sample end to end; MinMaxMonitor.tla (TLC) judges with the specification's Sat.", se_note, "TLA+ symbolic-domain spec (MinMax.tla) model-checked by TLC; all points/pairs x all conditions replayed on the real functions and engine; observations judged by TLC (MinMaxMonitor.tla)", "DESIGN 5 C04")
 
+mg_note = ("Trusted: TLC; fail-stop fault injection by harness store wrappers; MergeGroups.tla is a transcription of the planner (conformance of "
+           "the real planner's outcome with the transcription is not enforced, only the C12 invariants on the real outcome).")
+mg_tech = ("merge planner transcribed into TLA+ (MergeGroups.tla) and commit protocol (MergeCommit.tla) model-checked by TLC; the real Merge run over "
+           "random populations, with a failure at every store call position, a concurrent second Merge and paused concurrent queries; observations judged by TLC (MergeMonitor.tla)")
+chk("C12", "model_checking", "MergeGroups.tla transcribes identifyFileMergeGroups / hasMergeableBlockPair / processPartitionBlocks with the unstable sort's ties nondeterministic; TLC checks PlanOK (combined blocks within MaxRowGroupRows/Bytes and of one partition and key set, at most MaxFilesToMergePerOperation sources, groups within MaxFileSize) over every population of 3-4 files of 1-2 blocks. The real Merge is run (1-3 times) over random populations and limits; MergeMonitor.tla recomputes which source blocks each output block combines (by row identity) and checks the same limits on recomputed sizes and on the MetaStore.Update log.", mg_note, mg_tech, "DESIGN 5 C12")
+chk("C13", "model_checking", "MergeCommit.tla: two-group merge with a failure possible at every store call, a second Merge caller and both MetaStore disciplines; TLC checks AllOrNothing, ReturnTruthful, SourcesOnlyGoAfterCommit, SingleFlight. On the real engine a failure is injected at every position of every call kind (iterator, CreateFile, OpenFile, Read, Write, Close, Update, TombstoneFile) of multi-group merges on in-memory and filesystem stores, and a second Merge is issued while the first is held; the monitor judges return value, MetaStore/DataStore state, tombstone order and a full query.", mg_note, mg_tech, "DESIGN 5 C13")
+chk("C14", "model_checking", "MergeCommit.tla's concurrent query: QuerySnapshotSound holds for the MemoryMetaStore discipline (TLC, exhaustive) and fails for FileSystemDataStore-as-MetaStore exactly in the publish-before-remove window (recorded known finding, checked as an expected counterexample). On the real engine a query is paused at iterator start / yields / opens / reads while a merge advances to output Close / Update / tombstones / completion, then resumed, for both MetaStores; the monitor requires every acknowledged row exactly once unless the query reports an error.", mg_note, mg_tech, "DESIGN 5 C14")
+
 EXTRA = os.path.join(V, "tools", "manifest_extra.py")
 if os.path.exists(EXTRA):
     exec(open(EXTRA).read())
